@@ -278,7 +278,7 @@ def all_events(tier, family=True):
     # classifying single-byte damage, see representatives()), and a data column that holds no BLOB at all
     evs += [("ENTRY", "raises", x) for x in sorted(representatives())]
     evs.append(("ENTRY", "column", "null"))
-    evs += [("LAYOUT", k) for k in ("models-foreign", "metadata-foreign", "drop-models", "drop-metadata", "metadata-keys-deleted")]
+    evs += [("LAYOUT", k) for k in ("models-foreign", "metadata-foreign", "drop-models", "drop-metadata", "metadata-keys-deleted", "models-retyped", "metadata-retyped")]
     evs += [("FILE", k) for k in ("garbage", "half", "zero", "deleted")]
     evs.append(("RELOAD",))  # keep last: it replaces the parse function object
     return evs
@@ -568,6 +568,12 @@ class World:
         elif kind == "metadata-foreign":
             c.execute("DROP TABLE IF EXISTS metadata")
             c.execute("CREATE TABLE metadata (k TEXT, v TEXT, extra TEXT)")
+        elif kind == "models-retyped":
+            # same column names, order and primary key, other declared types (what an older / hand-made database may
+            # hold): text affinity for the timestamp; the rows are kept when the present table has these columns
+            self._retype(c, "models", "txt_hash VARCHAR(64), pymoca_version TEXT, data BLOB, last_hit TEXT, PRIMARY KEY (txt_hash, pymoca_version)", "txt_hash, pymoca_version, data, last_hit")
+        elif kind == "metadata-retyped":
+            self._retype(c, "metadata", "key TEXT, value BLOB, PRIMARY KEY (key)", "key, value")
         elif kind == "drop-models":
             c.execute("DROP TABLE IF EXISTS models")
         elif kind == "drop-metadata":
@@ -579,6 +585,22 @@ class World:
                 pass
         c.commit()
         c.close()
+
+    @staticmethod
+    def _retype(c, table, decl, cols):
+        c.execute("DROP TABLE IF EXISTS vf_old")
+        try:
+            c.execute("ALTER TABLE %s RENAME TO vf_old" % table)
+            have = True
+        except sqlite3.Error:
+            have = False
+        c.execute("CREATE TABLE %s (%s)" % (table, decl))
+        if have:
+            try:
+                c.execute("INSERT INTO %s SELECT %s FROM vf_old" % (table, cols))
+            except sqlite3.Error:
+                pass
+            c.execute("DROP TABLE vf_old")
 
     def file_fault(self, kind):
         p = self.dbpath
@@ -663,7 +685,11 @@ class World:
         if len(r) != 4:
             return ("foreign", len(r))
         h, v, data, last_hit = r
-        age = self.clock.now // 1000 - (last_hit or 0)
+        try:  # a column with text affinity hands the timestamp back as a string
+            last_hit = int(last_hit or 0)
+        except (TypeError, ValueError):
+            last_hit = 0
+        age = self.clock.now // 1000 - last_hit
         day = 86400 * 10**6
         bucket = 0 if age < day else (1 if age <= 30 * day else 2)
         # a data column of another storage class than BLOB is a state of its own (NULL is not the empty blob)
